@@ -223,18 +223,20 @@ class ProbeGen:
             body = "return vrt::cs([](std::ostream& os) { os << PhQ::UnitSystem::%s; });" % s
         return self.mk("system", ["PhQ/UnitSystem.hpp"], body, "unit system")
 
-    def model(self):
+    def model(self, which=None, pick=None):
         T = self.rng.choice(NUMERIC)
-        w = self.rng.below(4)
-        hdrs = ["PhQ/ConstitutiveModel/ElasticIsotropicSolid.hpp", "PhQ/ConstitutiveModel/IncompressibleNewtonianFluid.hpp"]
+        w = self.rng.below(4) if which is None else which
+        # the enumeration of model types, its names and its spellings are declared by the base header alone: a TU that uses
+        # only those includes only that header (whatever the concrete-model headers add reaches it from other TUs, or not)
+        hdrs = ["PhQ/ConstitutiveModel.hpp"] if w in (0, 1) else ["PhQ/ConstitutiveModel/ElasticIsotropicSolid.hpp", "PhQ/ConstitutiveModel/IncompressibleNewtonianFluid.hpp"]
         solid = ("PhQ::ConstitutiveModel::ElasticIsotropicSolid<%s>{PhQ::YoungModulus<%s>{%s, PhQ::Unit::Pressure::%s}, "
                  "PhQ::PoissonRatio<%s>{vrt::V<%s>(0.25%s)}}" % (
                      T, T, "vrt::V<%s>(200.0%s)" % (T, SUFFIX[T]), self.rng.choice(self.cat.units["Pressure"]["enumerators"]),
                      T, T, SUFFIX[T]))
         if w == 0:
-            body = "return vrt::c(PhQ::Abbreviation(PhQ::ConstitutiveModel::Type::%s));" % self.rng.choice(self.cat.model_types)
+            body = "return vrt::c(PhQ::Abbreviation(PhQ::ConstitutiveModel::Type::%s));" % (pick or self.rng.choice(self.cat.model_types))
         elif w == 1:
-            body = "return vrt::c(PhQ::ParseEnumeration<PhQ::ConstitutiveModel::Type>(%s));" % cstr(self.rng.choice(self.cat.model_literals))
+            body = "return vrt::c(PhQ::ParseEnumeration<PhQ::ConstitutiveModel::Type>(%s));" % cstr(pick if pick is not None else self.rng.choice(self.cat.model_literals))
         elif w == 2:
             body = "return vrt::c(%s.%s());" % (solid, self.rng.choice(["Print", "JSON", "XML", "YAML"]))
         else:
